@@ -14,7 +14,12 @@
      sp_run / sp_step                          builds that log: an update is logged unless it is rejected (older than
                                                the track of its MMSI, or in ordered mode older than any track), a
                                                pop_track and every expiry are logged as removals
-     V                                         the type of attribute values (the code never looks inside a value)  *)
+     V                                         the type of attribute values (the code never looks inside a value)
+     A history may also assign a new TTL (`OpSetTtl`, `tracker.ttl_in_seconds = ...`) and switch an ordered tracker to
+     unordered (`OpUnordered`, `tracker.stream_is_ordered = False`); the specification is told (`SpSetTtl`, `SpUnordered`)
+     and judges every update by the mode, every expiry by the TTL, in force when it happens (`sp_mode`, `sp_ttl_after`).
+     The model `trk_step` is the tracker with subscriber callbacks that return normally (Props/C13.v
+     C13_quiet_subscribers_give_trk_step ties it to the general model in which they may raise). *)
 From Coq Require Import ZArith List Bool.
 Require Import Prim.Exn Prim.IntDict Model.Tracker Spec.TrackerSpec Proofs.TrackerProofs.
 Import ListNotations.
@@ -84,4 +89,21 @@ Example C12_nonvacuous :
   map (@r_exn Z) (snd run) = [None; None; None; Some (Py ValueError); None] /\
   sp_track_of 3 111 (sp_run_exact (Some 20) false (map abs_op h)) = Some (mkSpTrack 13 [Some 5; Some 0; None]) /\
   sp_track_of 3 222 (sp_run_exact (Some 20) false (map abs_op h)) = None.
+Proof. vm_compute. repeat split. Qed.
+
+(* non-vacuity with a changing configuration: an ordered tracker rejects the older timestamp of 222, is switched to
+   unordered and accepts it; the TTL is shortened from 100 to 6 and the cleanup() at the same instant removes 111 *)
+Example C12_nonvacuous_reconfigured :
+  let h := [OpUpdate 10 (mkMsg 111 [MPresent (Some 5)]) (Some 4);
+            OpUpdate 10 (mkMsg 222 [MPresent (Some 6)]) (Some 2);
+            OpUnordered;
+            OpUpdate 10 (mkMsg 222 [MPresent (Some 6)]) (Some 5);
+            OpCleanup 10;
+            OpSetTtl (Some 6);
+            OpCleanup 10] in
+  let run := trk_run 1 (trk_init (Some 100) true) h in
+  map (@tr_mmsi Z) (trk_tracks (fst run)) = [222] /\
+  map (@r_exn Z) (snd run) = [None; Some (Py ValueError); None; None; None; None; None] /\
+  sp_track_of 1 111 (sp_run_exact (Some 100) true (map abs_op h)) = None /\
+  sp_track_of 1 222 (sp_run_exact (Some 100) true (map abs_op h)) = Some (mkSpTrack 5 [Some 6]).
 Proof. vm_compute. repeat split. Qed.
